@@ -71,6 +71,12 @@ reg('C05', 'exhaustive colour/number-pair enumeration + Hypothesis value sequenc
     'with the reference line; each printed colour token is parsed back and must denote the written (r,g,b,a), be short only when allowed, and be rgba iff alpha < 1.',
     'The abbreviation text is written with the documented separator rule; 4/5/7+-digit hex, `-0`, `#t` with alpha, > 4 decimals and keywords are not generated.')
 
+reg('C06', 'exhaustive whole-table enumeration (keys × syntaxes × scopes, keywords × case × separator) + Hypothesis user tables; oracle derived from the table text',
+    'Every key of the shipped stylesheet table × 6 syntaxes (× 4 scopes for css/stylus) and every dash-free top-level keyword of every property snippet in 4 letter cases × 2 separators are expanded '
+    'in the quick tier; expectations (property line with first alternative, raw body, tabstop presence, keyword value, scope hiding) are computed from the table text only. Hypothesis adds user tables '
+    'that override shipped keys and add new ones. Exhaustive over the shipped table.',
+    '`lg` is resolved by the gradient shortcut and is not combined with scopes or user tables; blank placement inside property values is not compared (blank-insensitive equality).')
+
 NOT_APPLICABLE = [
 ]
 
